@@ -353,3 +353,8 @@ reg("C31", "exploration", "TLC: canonical signed form Canon (Keyring.tla) inject
     "signature bits, wrong passwords) - TLC judges: refused with InvalidSecureConfiguration - and with changes outside the signed content (white space, a comment): accepted with the same content.",
     "Trusted: TLC; cryptography / hashlib primitives (shared with the implementation); the keyring layout (KNX keyring 1, as written by ETS and read by Calimero: one length octet, modulo 256).",
     "DESIGN.md section 5 C31", driver="c31", entry="run")
+
+# ---- supplements: parts of the specification beyond the listed properties (not in MANIFEST.json; ./check S01 runs them; DESIGN.md section 0.9)
+reg("S01", "model_checking", "TLC exhaustive on ValueReader (every environment) + trace validation of real ValueReader.read / read_group_value sessions",
+    "Supplement: reading a group value returns only a response / write to its own address seen while it waited, None exactly at the timeout, and always unregisters its callback.",
+    "Trusted: TLC, the virtual-time loop.", "DESIGN.md section 0.9", driver="s01", entry="run")
